@@ -80,3 +80,17 @@ def good_mapget(obj, name):
         return None
     member.kind = 1
     return member
+
+
+def bad_modattr(name):
+    from importlib import import_module
+    mod = import_module(f'pydoctor.x.{name}')
+    return mod.get_parser          # T8: the module selected by `name` may not define it
+
+
+def good_modattr(name):
+    from importlib import import_module
+    mod = import_module(f'pydoctor.x.{name}')
+    if not hasattr(mod, 'get_parser'):
+        raise ImportError(name)
+    return mod.get_parser
